@@ -205,7 +205,15 @@ def _run_shard(args):
                 stream.run(ctx, case)
             except HarnessError:
                 raise
-            except Exception as e:  # an unexpected exception of the harness itself
+            except Exception as e:
+                tb = traceback.extract_tb(e.__traceback__)
+                inner = tb[-1].filename if tb else ""
+                if os.path.realpath(inner).startswith(os.path.realpath(os.path.join(REPO, "esrally")) + os.sep):
+                    # the real code raised something the stream did not anticipate on a generated in-domain input
+                    ctx.fail("impl-exception:" + type(e).__name__, f"the implementation raised {type(e).__name__} at {os.path.relpath(inner, REPO)}:{tb[-1].lineno} ({tb[-1].name})", "no exception", f"{type(e).__name__}: {e}")
+                    ctx.diff("impl-exception", "no exception", f"{type(e).__name__}: {e}")
+                    return
+                # an unexpected exception of the harness itself
                 raise HarnessError(f"stream {sname} case {json.dumps(case, default=str)[:500]}: {type(e).__name__}: {e}\n{traceback.format_exc()}")
 
         for c in corpus_cases:
